@@ -90,21 +90,44 @@ func vxC01Decision() { vxC01Request(true) }
 // arrives in any letter case (each of 6 letter positions independently upper or
 // lower case, the first and the last included).
 func vxC01NameCase() {
+	// the name is blocked either by a rule-list rule (rule-list filtering on) or
+	// by a blocked service whose rule matches it while rule-list filtering is
+	// switched off globally or for the client
+	viaService := vx.Bool("blockedByService")
+	globalFiltering, clientOwn := true, false
+	if viaService {
+		globalFiltering = vx.Bool("globalFiltering")
+		clientOwn = !globalFiltering || vx.Bool("clientUsesOwnSettings")
+	}
 	conf := &filtering.Config{
 		BlockingMode:       filtering.BlockingModeDefault,
 		BlockedResponseTTL: 10,
 		ProtectionEnabled:  true,
-		FilteringEnabled:   true,
+		FilteringEnabled:   globalFiltering,
 		BlockedServices:    &filtering.BlockedServices{},
 	}
-	conf.ApplyClientFiltering = func(id string, addr netip.Addr, setts *filtering.Settings) {}
+	var services []string
+	if viaService {
+		services = []string{"svc1"}
+		conf.BlockedServices.IDs = services
+	}
+	conf.ApplyClientFiltering = func(id string, addr netip.Addr, setts *filtering.Settings) {
+		if clientOwn {
+			setts.FilteringEnabled = false
+		}
+	}
 	filtering.VxC01Clock = 1_700_000_000
+	filtering.VxC01Paused = false
 	filtering.VxC01Calls = nil
-	d := filtering.VxC01NewFilter(conf, nil)
-	d.SetEnabled(true)
+	d := filtering.VxC01NewFilter(conf, services)
+	d.SetEnabled(globalFiltering)
+	if viaService {
+		filtering.VxC01SvcMatch = []bool{false}
+		filtering.VxC01SvcMatchFn = func(i int, req *rules.Request) bool { return req.Hostname == "blocked.example.org" }
+	}
 	filtering.VxC01Verdict = func(allow bool, req *urlfilter.DNSRequest) (*urlfilter.DNSResult, bool) {
 		res := &urlfilter.DNSResult{}
-		if allow || req.Hostname != "blocked.example.org" {
+		if viaService || allow || req.Hostname != "blocked.example.org" {
 			return res, false
 		}
 		res.NetworkRule = &rules.NetworkRule{RuleText: "||blocked.example.org^", FilterListID: 5}
